@@ -668,6 +668,24 @@ def run(world, rep, tier, only=None):
     rep.ob("C06.l", site(pa, "growth test counts the separator and the NUL"), room,
            "the comparison of path_len + strlen(name) + K with path_max_len that guards the realloc has K >= 2")
 
+    # ------------------------------------------------------------------ C06.m the checksum of an extent block is computed only over an accepted header
+    # ext2fs_extent_block_csum_verify() finds the checksum tail at 12 + 12 * eh_max: it trusts the header.  For a
+    # block that came from the disk that is only safe once ext2fs_extent_header_verify() has accepted it (eh_max no
+    # larger than the block holds); verified the other way round, an eh_max of 0xffff reads 768 KiB past the buffer.
+    lprog = world.program("debugfs", plain=True)
+    n_m6 = 0
+    for fn in lprog.fns_in_file("lib/ext2fs/extent.c"):
+        ver = calls_to(fn, "ext2fs_extent_block_csum_verify") + \
+            [fn.block_end(b) for b in fn.blocks if fn.literal(b) and
+             any(cc.get("fn") == "ext2fs_extent_block_csum_verify" for cc in T.calls(fn.literal(b)[0]))]
+        hv = calls_to(fn, "ext2fs_extent_header_verify") + \
+            [n for n in fn.events("S") if any(cc.get("fn") == "ext2fs_extent_header_verify" for cc in T.calls(n.ev.get("rhs") or {}))]
+        for i, v in enumerate(ver):
+            n_m6 += 1
+            rep.ob("C06.m", site(fn, "extent block checksummed only after its header was verified#%d" % i), bool(hv) and fn.dominated_by(v, hv),
+                   "ext2fs_extent_header_verify() dominates ext2fs_extent_block_csum_verify() (line %d)" % v.line)
+    rep.floor("C06.m checksum verifications of extent blocks in extent.c", n_m6, 1)
+
     # C06.b cursor lifetime in the rbtree bitmap — shared with C16.b
     try:
         from rules import C16
